@@ -1,7 +1,7 @@
 """C14 — workbook format does not matter: CSV, XLSX and JSON inputs compile identically (PARTIAL).
 
 A  proof step: Rpft.Props.C14 (json_roundtrip, xlsx_sanitize_id, sanitize_idem, csv_read_id,
-   formats_agree, convert_then_compile, c14_partial + negative witnesses) over the hand model
+   readers_agree_on_blank_rows, the *_general round trips, formats_agree, convert_then_compile, c14_partial + negative witnesses) over the hand model
    Rpft/Sheets.lean of `_sanitize`, `to_json`/`table.dict`, `JSONSheetReader`/`table.dict = …`
    and tablib's CSV record loop; and the CSV BYTE FORMAT (Rpft/Csv.lean: csv.writer dialect,
    newline='' line iteration, the csv.reader automaton with its field limit, UTF-8) with
@@ -26,7 +26,8 @@ B  tie: (1) every generated sheet through the model (`sheets.all`) vs what the R
 C  direct oracle: workbooks written by the harness as CSV folder (Python `csv`), XLSX
    (openpyxl, text cells) and JSON (real `convert_to_json` from the CSV AND from the XLSX) must
    be read by `create_sheet_reader(fmt, path).sheets` into exactly what was written, cell by
-   cell; compilable workbooks must compile with the real `create_flows` to the same flows (up
+   cell, all-empty rows omitted (by every reader alike: F-C14-a, fixed — such rows are a regular
+   class of the generators); compilable workbooks must compile with the real `create_flows` to the same flows (up
    to invented UUIDs) from all formats, and convert→compile = compile.
 """
 from __future__ import annotations
@@ -44,9 +45,9 @@ import tempfile
 from .. import core, par
 
 MANIFEST = dict(
-    text="Proof (partial): Lean theorems json_roundtrip (to_json then JSONSheetReader is the identity on rectangular sheets with distinct headers and at least one row), xlsx_sanitize_id / xlsx_sanitize_grid (XLSXSheetReader._sanitize is the identity on what openpyxl delivers for rectangular text sheets with non-empty headers and no all-empty row), sanitize_idem (for every grid), csv_read_id (tablib's CSV record loop), and — the CSV byte format being inside the model (Python csv.writer with the excel dialect tablib uses, text-file line iteration with newline='', the csv.reader state machine with its 131072-character field limit, UTF-8) — csv_read_write (reader(writer(records)) = records for ALL lists of records: any shape, empty records, cells with commas, quotes, CR, LF, any Unicode, up to the field limit), writeCsv_injective (unconditional), csv_reader_grammar (the reader is correct on every text of the CSV grammar: CRLF or LF records, each field quoted-with-doubled-quotes or plain), csv_read_write_dialect (LF / QUOTE_ALL writers; the LF+QUOTE_MINIMAL writer of CPython 3.12 needs CR-free cells: lf_minimal_loses_cr), csv_file_roundtrip (tablib export -> UTF-8 bytes -> load_csv is the identity on rectangular sheets with a header), csv_read_write_iff / csv_unfit_raises / csv_reader_total / loadCsv_errors (the guard is exact; on every text the only failures are the field limit, non-UTF-8 bytes and tablib's InvalidDimensions), and — the JSON byte format being inside the model too (json.dumps(ensure_ascii=False, indent=2) and json.loads for strings / arrays / objects, the book value of to_json, text-mode reading, the JSONSheetReader loop) — json_string_roundtrip (string literals, every string), json_document_roundtrip (loads(dumps(v)) = v for every value with distinct keys), json_file_roundtrip (to_json -> UTF-8 bytes -> JSONSheetReader is the identity on workbooks of rectangular sheets with distinct headers, at least one row and distinct names), formats_agree / c14_partial (the three readers deliver the same sheets: proved for the CSV and JSON bytes, relative to the XLSX byte format being faithful) and convert_then_read / convert_then_compile (convert followed by compilation = compiling the source, for any compiler that is a function of the sheets), each hypothesis shown necessary by a kernel-checked witness that is replayed on the real code. The model of the csv library is tied to the real csv module on every run (exhaustive small grids and texts over {a , \" CR LF space e-acute}, random larger grids, hand-made unusual texts, mutated and non-UTF-8 files through the project's load_csv, the field limit at its real value), the model of the json library to json.dumps / json.decoder.scanstring / json.loads / the real convert output and JSON reader (exhaustive short strings and texts, random escape sequences, every real convert output of the run byte for byte, foreign-style and damaged JSON files). The quantifier over cell contents for the XLSX byte format (openpyxl / tablib) is carried by the harness: generated workbooks (1-6 sheets, 1-15 rows, unique non-empty headers, empty cells, commas, quotes, newlines, | ; \\, leading = and ', numeric- and boolean-looking text, leading/trailing blanks, non-ASCII and astral characters) are written as CSV folder, XLSX and JSON (real convert_to_json from both), read back by the real readers and compared cell by cell with what was written and with the model; compilable workbooks are compiled by the real create_flows from every format and compared up to invented UUIDs.",
+    text="Proof (partial): Lean theorems json_roundtrip (to_json then JSONSheetReader is the identity on rectangular sheets with distinct headers and at least one row), xlsx_sanitize_id / xlsx_sanitize_grid (XLSXSheetReader._sanitize is the identity on what openpyxl delivers for rectangular text sheets with non-empty headers and no all-empty row), sanitize_idem (for every grid), csv_read_id (tablib's CSV record loop), and — the CSV byte format being inside the model (Python csv.writer with the excel dialect tablib uses, text-file line iteration with newline='', the csv.reader state machine with its 131072-character field limit, UTF-8) — csv_read_write (reader(writer(records)) = records for ALL lists of records: any shape, empty records, cells with commas, quotes, CR, LF, any Unicode, up to the field limit), writeCsv_injective (unconditional), csv_reader_grammar (the reader is correct on every text of the CSV grammar: CRLF or LF records, each field quoted-with-doubled-quotes or plain), csv_read_write_dialect (LF / QUOTE_ALL writers; the LF+QUOTE_MINIMAL writer of CPython 3.12 needs CR-free cells: lf_minimal_loses_cr), readers_agree_on_blank_rows (for every rectangular sheet with distinct non-empty headers and a row, the CSV, XLSX and JSON readers all deliver the sheet without its all-empty rows: omit_empty_rows in load_csv / JSONSheetReader drops exactly the rows _sanitize drops, xlsx_rows_eq_omitEmptyRows for every grid), the round trips in general form (csv_reader_general, json_reader_general, xlsx_sanitize_general, csv_file_roundtrip_general, json_file_roundtrip_general, convert_then_read_general: what is read is the sheet with its all-empty rows removed) with the identity as corollary exactly when there is no all-empty row (omitEmpty_eq_self_iff), csv_file_roundtrip (tablib export -> UTF-8 bytes -> load_csv is the identity on rectangular sheets with a header and no all-empty row), csv_read_write_iff / csv_unfit_raises / csv_reader_total / loadCsv_errors (the guard is exact; on every text the only failures are the field limit, non-UTF-8 bytes and tablib's InvalidDimensions), and — the JSON byte format being inside the model too (json.dumps(ensure_ascii=False, indent=2) and json.loads for strings / arrays / objects, the book value of to_json, text-mode reading, the JSONSheetReader loop) — json_string_roundtrip (string literals, every string), json_document_roundtrip (loads(dumps(v)) = v for every value with distinct keys), json_file_roundtrip (to_json -> UTF-8 bytes -> JSONSheetReader is the identity on workbooks of rectangular sheets with distinct headers, at least one row, no all-empty row and distinct names), formats_agree / c14_partial (the three readers deliver the same sheets: proved for the CSV and JSON bytes, relative to the XLSX byte format being faithful) and convert_then_read / convert_then_compile (convert followed by compilation = compiling the source, for any compiler that is a function of the sheets), each hypothesis shown necessary by a kernel-checked witness that is replayed on the real code. The model of the csv library is tied to the real csv module on every run (exhaustive small grids and texts over {a , \" CR LF space e-acute}, random larger grids, hand-made unusual texts, mutated and non-UTF-8 files through the project's load_csv, the field limit at its real value), the model of the json library to json.dumps / json.decoder.scanstring / json.loads / the real convert output and JSON reader (exhaustive short strings and texts, random escape sequences, every real convert output of the run byte for byte, foreign-style and damaged JSON files). The quantifier over cell contents for the XLSX byte format (openpyxl / tablib) is carried by the harness: generated workbooks (1-6 sheets, 1-15 rows, unique non-empty headers, empty cells, all-empty rows at the start / in the middle / at the end / several in a row and rows of blanks, commas, quotes, newlines, | ; \\, leading = and ', numeric- and boolean-looking text, leading/trailing blanks, non-ASCII and astral characters) are written as CSV folder, XLSX and JSON (real convert_to_json from both), read back by the real readers and compared cell by cell with what was written and with the model; compilable workbooks are compiled by the real create_flows from every format and compared up to invented UUIDs.",
     ref="§5 C14",
-    note="PARTIAL: the XLSX byte format is library code (openpyxl zip + XML, tablib xlsx import) and is exercised, not modelled; the CSV byte format (csv.writer / csv.reader / line iteration / UTF-8) and the JSON byte format (json.dumps with indent / json.loads restricted to strings, arrays and objects / text-mode reading) ARE modelled, proved to round-trip (all grids / all workbooks in the domain) and tied to the real csv and json modules; the repo's own post-processing is modelled and proved. Trusts: Lean kernel (axioms audited each run), that the Lean models of CPython's _csv.c, _json.c / json.encoder and text-file reading are faithful beyond the exhaustively and randomly compared inputs (the interpreter's recursion limit for deeply nested JSON is not modelled), harness writers (openpyxl text cells) and Driver JSON codec. Known findings: F-C14-a (all-empty row kept by CSV/JSON, dropped by XLSX: a compile differs), F-C14-b (header-only sheet loses its headers through convert: JSON compile crashes). (F-C14-c, CR/CRLF in CSV cells, was fixed in /repo.)",
+    note="PARTIAL: the XLSX byte format is library code (openpyxl zip + XML, tablib xlsx import) and is exercised, not modelled; the CSV byte format (csv.writer / csv.reader / line iteration / UTF-8) and the JSON byte format (json.dumps with indent / json.loads restricted to strings, arrays and objects / text-mode reading) ARE modelled, proved to round-trip (all grids / all workbooks in the domain) and tied to the real csv and json modules; the repo's own post-processing is modelled and proved. Trusts: Lean kernel (axioms audited each run), that the Lean models of CPython's _csv.c, _json.c / json.encoder and text-file reading are faithful beyond the exhaustively and randomly compared inputs (the interpreter's recursion limit for deeply nested JSON is not modelled), harness writers (openpyxl text cells) and Driver JSON codec. Known findings: F-C14-b (header-only sheet loses its headers through convert: JSON compile crashes). (F-C14-a, all-empty row kept by CSV/JSON and dropped by XLSX, and F-C14-c, CR/CRLF in CSV cells, were fixed in /repo: all-empty rows are a regular generator class now, omitted by every reader.)",
     technique="Lean 4 proof of the readers' post-processing (induction over the row loops) and of the CSV and JSON byte formats (csv.writer / csv.reader automaton: invariant over records, fields and characters of a machine fusing the line iterator with the reader; json.dumps / json.loads: mutual structural induction over values, elements and members with a fuel-indexed recursive-descent reader) + exhaustive/random differential tie of those models against the real csv and json modules + generated three-format differential run on the real readers and compiler",
 )
 
@@ -171,10 +172,99 @@ def gen_sheet(rng: random.Random, name: str, min_rows=1) -> dict:
     for _ in range(nrows):
         while True:
             row = [gen_cell(rng) for _ in range(ncol)]
-            if any(row):        # F-C14-a: no all-empty row in the main stream
+            if any(row):        # all-empty rows are put in on purpose by with_blank_rows (their own strata)
                 break
         rows.append(row)
     return {"name": name, "headers": headers, "rows": rows}
+
+
+BLANK_ROW_KINDS = ("start", "middle", "end", "run", "scattered", "around_every_row")
+
+
+def with_blank_rows(rng: random.Random, s: dict):
+    """the sheet with all-empty rows put in — at the start / in the middle / at the end, one or several in a row, around
+    every row — and sometimes a row that only LOOKS empty (cells of blanks: not the empty string, every reader keeps
+    it).  Every reader omits the all-empty rows (`_sanitize` for XLSX, `omit_empty_rows` for CSV and JSON; F-C14-a,
+    fixed), so what is read is `omit_blank_rows` of this.  Only for sheets that keep a row (a sheet left with headers
+    only is F-C14-b's trigger).  Returns (sheet, strata)."""
+    n = len(s["headers"])
+    rows = [list(r) for r in s["rows"]]
+    if n == 0 or not any(any(r) for r in rows):
+        return s, []
+    kind = rng.choice(BLANK_ROW_KINDS)
+    if kind == "middle" and len(rows) < 2:
+        kind = "end"
+
+    def ins(i, k=1):
+        rows[i:i] = [[""] * n for _ in range(k)]
+
+    if kind == "start":
+        ins(0)
+    elif kind == "middle":
+        ins(rng.randint(1, len(rows) - 1))
+    elif kind == "end":
+        ins(len(rows))
+    elif kind == "run":
+        ins(rng.randint(0, len(rows)), rng.randint(2, 4))
+    elif kind == "scattered":
+        for _ in range(rng.randint(2, 4)):
+            ins(rng.randint(0, len(rows)))
+    else:
+        new = [[""] * n]
+        for r in rows:
+            new += [r, [""] * n]
+        rows = new
+    tags = ["blank_rows:" + kind]
+    if rng.random() < 0.2:
+        w = [""] * n
+        if rng.random() < 0.5:
+            w = [rng.choice([" ", "  "]) for _ in range(n)]
+        else:
+            w[rng.randrange(n)] = rng.choice([" ", "  "])
+        rows.insert(rng.randint(0, len(rows)), w)
+        tags.append("blank_rows:whitespace_only_row(kept by every reader)")
+    return {**s, "rows": rows}, tags
+
+
+def omit_blank_rows(sheets: list[dict]) -> list[dict]:
+    """what every reader delivers for these sheets: rows whose cells are all "" are omitted"""
+    return [{**s, "rows": [r for r in s["rows"] if any(c != "" for c in r)]} for s in sheets]
+
+
+def sprinkle_blank_rows(rng: random.Random, sheets: list[dict], p_book: float, p_sheet: float):
+    """all-empty rows in some sheets of some workbooks; returns (sheets, strata)"""
+    if rng.random() >= p_book:
+        return sheets, []
+    out, tags = [], []
+    forced = rng.randrange(len(sheets)) if sheets else -1
+    for i, s in enumerate(sheets):
+        if i == forced or rng.random() < p_sheet:
+            s, t = with_blank_rows(rng, s)
+            tags += t
+        out.append(s)
+    return out, tags
+
+
+def blank_row_strata(sheets: list[dict]) -> list[str]:
+    """where the all-empty rows of these sheets are (by inspection), and in what kind of sheet"""
+    tags = []
+    for s in sheets:
+        e = [not any(c != "" for c in r) for r in s["rows"]]
+        if not any(e):
+            continue
+        kind = ("index_sheet" if s["name"] == "content_index" else "flow_sheet" if {"row_id", "type", "from"} <= set(s["headers"]) else "data_or_other_sheet")
+        tags.append("blank_rows_in:" + kind)
+        if e[0]:
+            tags.append("blank_rows:first_row")
+        if e[-1]:
+            tags.append("blank_rows:last_row")
+        if any(e[i] and not all(e[:i]) and not all(e[i:]) for i in range(len(e))):
+            tags.append("blank_rows:between_rows")
+        if any(a and b for a, b in zip(e, e[1:])):
+            tags.append("blank_rows:several_in_a_row")
+        if any(r and not any(c.strip(" ") for c in r) and any(c != "" for c in r) for r in s["rows"]):
+            tags.append("blank_rows:whitespace_only_row(kept by every reader)")
+    return tags
 
 
 def gen_workbook(rng: random.Random) -> list[dict]:
@@ -337,6 +427,9 @@ def model_book(ans):
 
 
 FORMATS = ("csv", "xlsx", "json<csv", "json<xlsx")
+# + a JSON workbook written by the harness itself (not by convert: a converted file only holds what the source's reader
+# delivered, so e.g. an all-empty row never reaches the JSON reader that way)
+FORMATS_ALL = FORMATS + ("json",)
 
 
 def materialise(base: str, sheets: list[dict], style: dict) -> dict:
@@ -357,6 +450,12 @@ def materialise(base: str, sheets: list[dict], style: dict) -> dict:
         except Exception as e:  # noqa: BLE001
             texts[label] = None
             paths[label] = ("__exc__", f"{type(e).__name__}: {e}"[:300])
+    if all(len(set(s["headers"])) == len(s["headers"]) and s["rows"] for s in sheets):
+        j0 = os.path.join(base, "written.json")
+        with open(j0, "w", encoding="utf-8") as f:
+            json.dump({"meta": {"version": "0.1.0"}, "sheets": {s["name"]: [dict(zip(s["headers"], r)) for r in s["rows"]] for s in sheets}},
+                      f, ensure_ascii=False, indent=2)
+        paths["json"] = ("json", j0)
     return {"paths": paths, "texts": texts}
 
 
@@ -378,11 +477,16 @@ def read_worker(seeds):
         for seed in seeds:
             rng = random.Random(seed)
             sheets = gen_workbook(rng)
+            sheets, btags = sprinkle_blank_rows(rng, sheets, 0.3, 0.4)
+            for t in btags:
+                count(t)
+            count("workbook_with_all_empty_rows" if btags else "workbook_without_all_empty_rows")
             style = style_of(rng)
             base = os.path.join(tmp, "w%d" % out["n"])
             out["n"] += 1
             m = materialise(base, sheets, style)
-            exp = expect_of(sheets)
+            # what every reader must deliver: what was written, all-empty rows omitted (by every reader alike)
+            exp = expect_of(omit_blank_rows(sheets))
             out["keys"].append(json.dumps(sheets, ensure_ascii=False, sort_keys=True))
             if out["sample"] is None:
                 out["sample"] = {"sheets": [{"name": s["name"], "headers": s["headers"][:4], "rows": [r[:4] for r in s["rows"][:2]]} for s in sheets[:2]], "style": style}
@@ -416,13 +520,15 @@ def read_worker(seeds):
                     count(nm, sum(1 for c in flat if pred(c)))
             # C: every reader returns exactly what was written
             got_by = {}
-            for label in FORMATS:
+            for label in FORMATS_ALL:
+                if label not in m["paths"]:
+                    continue
                 fmt, path = m["paths"][label]
                 got = {"__exc__": path} if fmt == "__exc__" else read_sheets(fmt, path)
                 got_by[label] = got
                 d = first_diff(exp, got)
                 if d is not None and len(out["viol"]) < 10:
-                    out["viol"].append({"what": f"{label}: sheets read differ from the sheets written", "diff": d,
+                    out["viol"].append({"what": f"{label}: sheets read differ from the sheets written" + (" (all-empty rows omitted)" if btags else ""), "diff": d,
                                         "workbook": minimise_names(sheets, d, style, label, tmp), "style": style, "format": label, "seed": seed})
             pending.append((sheets, m["texts"], got_by, seed))
             styles.append(style)
@@ -472,7 +578,7 @@ def read_worker(seeds):
         # model's JSONSheetReader on those bytes == the real JSON reader
         reqs3, owners3 = [], []
         for wi, (sheets, texts, got_by, seed) in enumerate(pending):
-            by_name = {s["name"]: s for s in sheets}
+            by_name = {s["name"]: s for s in omit_blank_rows(sheets)}      # convert writes what the source's reader delivered
             for label in ("json<csv", "json<xlsx"):
                 if texts[label] is None:
                     continue
@@ -519,7 +625,7 @@ def read_worker(seeds):
             if "__error__" in ans:
                 out["ties"].append({"what": "driver error", "sheet": s, "error": ans["__error__"]})
                 continue
-            for label, key in (("csv", "csv"), ("xlsx", "xlsx"), ("json<csv", "json"), ("json<xlsx", "json")):
+            for label, key in (("csv", "csv"), ("xlsx", "xlsx"), ("json<csv", "json"), ("json<xlsx", "json")) + ((("json", "json"),) if "json" in got_by else ()):
                 real = got_by[label]
                 real_t = real.get(s["name"]) if "__exc__" not in real else {"__exc__": real["__exc__"]}
                 mt = model_table(ans[key])
@@ -532,8 +638,8 @@ def read_worker(seeds):
                 if ck_ not in json_pairs_cache:
                     json_pairs_cache[ck_] = pairs_of_json_text(texts[label])
                 real_c = json_pairs_cache[ck_].get(s["name"])
-                if real_c != ans["tojson"] and len(out["ties"]) < 10:
-                    out["ties"].append({"what": f"model toJson and real convert_to_json ({label}) differ", "sheet": s, "model": ans["tojson"], "real": real_c, "seed": seed})
+                if real_c != ans["convert"] and len(out["ties"]) < 10:
+                    out["ties"].append({"what": f"model toJson and real convert_to_json ({label}) differ", "sheet": s, "model": ans["convert"], "real": real_c, "seed": seed})
     finally:
         shutil.rmtree(tmp, ignore_errors=True)
     return out
@@ -1054,6 +1160,10 @@ def csv_file_worker(seeds):
                 s["headers"][rng.randrange(len(s["headers"]))] += rng.choice([",", "\"", "\r\n", "\r", "\n"])
                 if len(set(s["headers"])) < len(s["headers"]):
                     continue
+            if rng.random() < 0.25:
+                s, btags = with_blank_rows(rng, s)
+                for t in btags:
+                    count("csv_file:" + t)
             ds = tablib.Dataset()
             ds.headers = s["headers"]
             for r in s["rows"]:
@@ -1070,9 +1180,9 @@ def csv_file_worker(seeds):
                 if cond:
                     count(nm)
             real = real_load_csv_bytes(data, tmp, out["n"])
-            exp = {"headers": s["headers"], "rows": s["rows"]}
+            exp = {"headers": s["headers"], "rows": omit_blank_rows([s])[0]["rows"]}
             if real != exp and len(out["viol"]) < 5:
-                out["viol"].append({"what": "csv: load_csv of the file tablib exported for a sheet differs from the sheet",
+                out["viol"].append({"what": "csv: load_csv of the file tablib exported for a sheet differs from the sheet (all-empty rows omitted)",
                                     "workbook": [s], "format": "csv", "seed": seed, "diff": first_diff({"s": exp}, {"s": real} if "__err__" not in real else {"__exc__": real["__err__"]})})
             reqs.append({"op": "csv.export", "name": "s", "headers": s["headers"], "rows": s["rows"]})
             checks.append(("export", s, text))
@@ -1215,8 +1325,9 @@ def csv_fixed_stream(ck: core.Check, tmp: str):
             ck.tie_break(f"kernel-checked fact csv_file_needs_header_and_rect ({name}) does not hold on the real code", {"sheet": s, "model": want_t, "real": real})
     for name, text, want_t in (("wShortRow", "a,b\r\n1\r\n", {"headers": ["a", "b"], "rows": [["1", ""]]}), ("wLongRow", "a\r\n1,2\r\n", {"__err__": "invalidDimensions"}),
                                ("blank_line", "a,b\r\n\r\n1,2\r\n", {"headers": ["a", "b"], "rows": [["1", "2"]]}),
-                               ("blank_row", "a,b\r\n,\r\n1,2\r\n", {"headers": ["a", "b"], "rows": [["", ""], ["1", "2"]]}),
-                               ("blank_row_one_column", "a\r\n\"\"\r\n1\r\n", {"headers": ["a"], "rows": [[""], ["1"]]})):
+                               ("blank_row", "a,b\r\n,\r\n1,2\r\n", {"headers": ["a", "b"], "rows": [["1", "2"]]}),
+                               ("blank_row_one_column", "a\r\n\"\"\r\n1\r\n", {"headers": ["a"], "rows": [["1"]]}),
+                               ("blank_row_vs_row_of_blanks", "a,b\r\n, \r\n,\r\n", {"headers": ["a", "b"], "rows": [["", " "]]})):
         ck.case("csv:kernel:file:" + name)
         ck.count("csv_kernel_facts_replayed")
         real = real_load_csv_bytes(text.encode("utf-8"), tmp, 0)
@@ -1561,6 +1672,8 @@ def gen_compilable(rng: random.Random) -> list[dict]:
     if rng.random() < 0.5:
         sheets.append(gen_sheet(rng, "unused extra"))
     sheets = [s for s in sheets if s["rows"]]      # F-C14-b: no header-only sheet in the main stream
+    # all-empty rows in index / flow / data / unreferenced sheets (own rng: the rest of the stream is not shifted)
+    sheets, _ = sprinkle_blank_rows(random.Random(rng.getrandbits(32)), sheets, 0.3, 0.5)
     rng.shuffle(sheets)
     return sheets
 
@@ -1595,6 +1708,10 @@ def compile_worker(seeds):
         for seed in seeds:
             rng = random.Random(seed)
             sheets = gen_compilable(rng)
+            btags = blank_row_strata(sheets)
+            for t in btags:
+                count("compile_" + t)
+            count("compile_workbook_with_all_empty_rows" if btags else "compile_workbook_without_all_empty_rows")
             style = style_of(rng)
             base = os.path.join(tmp, "w%d" % out["n"])
             out["n"] += 1
@@ -1603,7 +1720,9 @@ def compile_worker(seeds):
             count("compile_sheet_name_not_nfc", sum(1 for s in sheets if not _is_nf("NFC", s["name"])))
             count("compile_sheet_name_nfc_not_nfkc", sum(1 for s in sheets if _is_nf("NFC", s["name"]) and not _is_nf("NFKC", s["name"])))
             res = {}
-            for label in FORMATS:
+            for label in FORMATS_ALL:
+                if label not in m["paths"]:
+                    continue
                 fmt, path = m["paths"][label]
                 res[label] = {"exc": path} if fmt == "__exc__" else compile_real(fmt, [path])
             ref = res["csv"]
@@ -1615,7 +1734,7 @@ def compile_worker(seeds):
                     out["sample"] = {"compiled": [s["name"] for s in sheets], "flows": ref["flows"], "nodes": ref["nodes"]}
             else:
                 count("source_compile_rejected")
-            for label in FORMATS[1:]:
+            for label in [l for l in FORMATS_ALL[1:] if l in res]:
                 a = {k: v for k, v in ref.items() if k in ("ok", "exc", "errors")}
                 b = {k: v for k, v in res[label].items() if k in ("ok", "exc", "errors")}
                 if a != b and len(out["viol"]) < 5:
@@ -1696,6 +1815,25 @@ def wb_blank_row():
     ]
 
 
+def wbs_blank_rows():
+    """fixed workbooks with all-empty rows (F-C14-a, fixed: a regular class now — these are its deterministic part):
+    flow sheet / index sheet / data sheet; first, between, last, several in a row, everywhere at once"""
+    e4, e8, e2 = [""] * 4, [""] * 8, [""] * 2
+    r1, r2 = ["1", "send_message", "start", "hi"], ["2", "send_message", "1", "there"]
+    idx = ["create_flow", "main", "", "", "", "", "", ""]
+    out = {"flow:between": wb_blank_row()}
+    for tag, rows in (("flow:first", [e4, r1, r2]), ("flow:last", [r1, r2, e4]), ("flow:run", [r1, e4, e4, e4, r2]), ("flow:everywhere", [e4, e4, r1, e4, r2, e4, e4])):
+        out[tag] = [{"name": "content_index", "headers": INDEX_H, "rows": [idx]}, {"name": "main", "headers": FLOW_H, "rows": rows}]
+    out["index:everywhere"] = [{"name": "content_index", "headers": INDEX_H, "rows": [e8, idx, e8, e8]}, {"name": "main", "headers": FLOW_H, "rows": [r1, r2]}]
+    out["data:everywhere"] = [
+        {"name": "content_index", "headers": INDEX_H, "rows": [["data_sheet", "dat", "", "", "", "", "", ""], e8,
+                                                               ["create_flow", "tpl", "dat", "", "", "", "", ""]]},
+        {"name": "dat", "headers": ["ID", "word"], "rows": [e2, ["a", "alpha"], e2, e2, ["b", "beta"], e2]},
+        {"name": "tpl", "headers": FLOW_H, "rows": [["1", "send_message", "start", "say {{word}}"], e4]},
+    ]
+    return out
+
+
 def wb_header_only():
     return [
         {"name": "content_index", "headers": INDEX_H, "rows": [["data_sheet", "dat", "", "", "", "", "", ""], ["create_flow", "main", "", "", "", "", "", ""]]},
@@ -1724,10 +1862,10 @@ def known_streams(ck: core.Check, tmp: str):
     AND the repaired input behaves (counterfactual).  Anything else on these inputs is a violation."""
     style = {"lt": "\r\n", "quote_all": False, "skip_empty": False}
 
-    def run_wb(tag, sheets):
+    def run_wb(tag, sheets, formats=FORMATS):
         m = materialise(os.path.join(tmp, tag), sheets, style)
         reads, comps = {}, {}
-        for label in FORMATS:
+        for label in formats:
             fmt, path = m["paths"][label]
             reads[label] = {"__exc__": path} if fmt == "__exc__" else read_sheets(fmt, path)
             comps[label] = {"exc": path} if fmt == "__exc__" else compile_real(fmt, [path])
@@ -1737,27 +1875,28 @@ def known_streams(ck: core.Check, tmp: str):
         vals = [json.dumps({k: v for k, v in c.items() if k in ("ok", "exc", "errors")}, sort_keys=True) for c in comps.values()]
         return len(set(vals)) == 1
 
-    # ---- F-C14-a: all-empty row
-    wb = wb_blank_row()
-    exp = expect_of(wb)
-    exp_dropped = expect_of([{**s, "rows": [r for r in s["rows"] if any(r)]} for s in wb])
-    reads, comps = run_wb("fa", wb)
-    ck.case("known:F-C14-a", sample=None)
-    if all(first_diff(exp, reads[l]) is None for l in FORMATS) and same_compile(comps):
-        pass                                    # every format keeps the row and compiles alike: defect gone
-    elif all(first_diff(exp_dropped, reads[l]) is None for l in FORMATS) and same_compile(comps):
-        pass                                    # every format drops it: also consistent
-    elif (first_diff(exp, reads["csv"]) is None and first_diff(exp, reads["json<csv"]) is None
-          and first_diff(exp_dropped, reads["xlsx"]) is None and first_diff(exp_dropped, reads["json<xlsx"]) is None):
-        # counterfactual: without the blank row all formats agree
-        r2, c2 = run_wb("fa2", [{**s, "rows": [r for r in s["rows"] if any(r)]} for s in wb])
-        if all(first_diff(exp_dropped, r2[l]) is None for l in FORMATS) and same_compile(c2) and "ok" in c2["csv"]:
-            ck.known("F-C14-a", "an all-empty row is kept by the CSV and JSON readers and dropped by the XLSX reader: the same flow sheet compiles from XLSX and fails from CSV",
-                     {"sheet": wb[1], "csv_compile": summarise(comps["csv"]), "xlsx_compile": summarise(comps["xlsx"])})
-        else:
-            ck.violation("F-C14-a stream: formats disagree even without the all-empty row", {"workbook": wb, "reads": r2})
-    else:
-        ck.violation("all-empty row: readers disagree in a way that is not the known finding F-C14-a", {"workbook": wb, "reads": reads})
+    # ---- F-C14-a (fixed): all-empty rows are omitted by EVERY reader — a regular class of the generators (read_worker,
+    # compile_worker, csv_file_worker, cli_worker); here its deterministic part.  C: every format delivers the sheets
+    # without their all-empty rows, and every format compiles — to the same flows as the workbook without those rows.
+    for tag, wb in wbs_blank_rows().items():
+        clean = omit_blank_rows(wb)
+        exp_dropped = expect_of(clean)
+        reads, comps = run_wb("fa_" + tag.replace(":", "_"), wb, FORMATS_ALL)
+        ck.case("blank_rows:" + tag, sample=None)
+        ck.count("fixed_workbooks_with_all_empty_rows")
+        bad = {l: first_diff(exp_dropped, reads[l]) for l in FORMATS_ALL if first_diff(exp_dropped, reads[l]) is not None}
+        if bad:
+            ck.violation("all-empty rows: a reader does not deliver the sheet without them (the readers disagree on all-empty rows: F-C14-a is back)",
+                         {"workbook": wb, "style": style, "format": sorted(bad)[0], "diff": bad, "expected": "every format: the sheets without their all-empty rows"})
+            continue
+        if not same_compile(comps) or "ok" not in comps["csv"]:
+            ck.violation("all-empty rows: the formats do not compile the workbook alike",
+                         {"workbook": wb, "style": style, "compile": {l: summarise(c) for l, c in comps.items()}})
+            continue
+        r2, c2 = run_wb("fa2_" + tag.replace(":", "_"), clean, FORMATS_ALL)
+        if not same_compile(c2) or c2["csv"].get("ok") != comps["csv"].get("ok"):
+            ck.violation("all-empty rows: the workbook compiles to other flows than the same workbook without them",
+                         {"workbook": wb, "style": style, "with": summarise(comps["csv"]), "without": summarise(c2["csv"])})
 
     # ---- F-C14-b: header-only sheet through convert
     wb = wb_header_only()
@@ -1984,10 +2123,12 @@ def run(ck: core.Check):
         "read stream: seeded workbooks of 1-6 sheets, 1-15 rows, 1-30 unique non-empty headers, cells from a pool of empty / plain / "
         "format-hostile text (commas, quotes, LF, | ; \\, leading = ', numeric- and boolean-looking, edge blanks, non-ASCII, astral, text that is not in Unicode "
         "NFC / NFKC form: decomposed accents, conjoining jamo, singletons such as U+212B U+2126 U+037E, compatibility characters — in sheet names, headers "
-        "and cells; two sheet names of one workbook never differ only in case or normalisation, two headers of one sheet may), each written "
+        "and cells; two sheet names of one workbook never differ only in case or normalisation, two headers of one sheet may; in ~30% of the workbooks some "
+        "sheets get all-empty rows — at the start / in the middle / at the end / several in a row / scattered / around every row — and sometimes a row of "
+        "blanks, which is NOT empty; every sheet keeps a non-empty row), each written "
         "as CSV folder (CRLF or LF records, minimal or full quoting), XLSX (text cells; empty cell absent or empty text) and JSON by the real "
         "convert from both; compile stream: content-index workbooks (templates, data sheets, loops) and core flow sheets with decorated message "
-        "texts; direct stream: grids with None / typed cells / trailing and inner None headers fed to _sanitize, ragged JSON contents, tables with "
+        "texts, ~30% of them with all-empty rows in index / flow / data sheets, plus 7 fixed workbooks with such rows; direct stream: grids with None / typed cells / trailing and inner None headers fed to _sanitize, ragged JSON contents, tables with "
         "duplicate or no headers fed to table.dict; csv streams: every text of length <= 5 (quick) / <= 6 (thorough) over {a , \" CR LF space e-acute} through "
         "the reader and the line iterator, every grid of <= 2 fields of <= 2 such characters (one record) / two one-field records / empty-record shapes "
         "x {CRLF, LF} x {QUOTE_MINIMAL, QUOTE_ALL} through writer and reader, random ragged grids of 0-12 records with CR/LF/CRLF/quote/NUL-rich cells, "
@@ -2128,12 +2269,12 @@ def replay(path):
         try:
             style = rp.get("style") or {"lt": "\r\n", "quote_all": False, "skip_empty": False}
             m = materialise(os.path.join(tmp, "w"), wb, style)
-            exp = expect_of(wb)
-            for label in FORMATS:
+            exp = expect_of(omit_blank_rows(wb))
+            for label in [l for l in FORMATS_ALL if l in m["paths"]]:
                 fmt, p = m["paths"][label]
                 got = {"__exc__": p} if fmt == "__exc__" else read_sheets(fmt, p)
                 d = first_diff(exp, got)
-                print(f"--- {label}: read differs from written:", json.dumps(d, ensure_ascii=False))
+                print(f"--- {label}: read differs from written (all-empty rows omitted):", json.dumps(d, ensure_ascii=False))
                 if d is not None and not json.dumps(d, ensure_ascii=False).isascii():
                     print("    (escaped, so that look-alike texts can be told apart):", json.dumps(d, ensure_ascii=True))
                 if any(s["name"] == "content_index" for s in wb) and fmt != "__exc__":
